@@ -7,8 +7,10 @@ import array
 import collections
 import functools
 import hashlib
+import os
 import pickle
 import sys
+import threading
 import time
 import warnings
 from contextlib import nullcontext, suppress
@@ -450,11 +452,19 @@ class DiskCache(_CacheBase):
     def put(self, key: Hashable, value: Any) -> None:
         """Insert a key value pair into the cache."""
         file_path = self._get_file_path(key)
-        with file_path.open("wb") as f:
-            if self.use_cloudpickle:
-                cloudpickle.dump(value, f)
-            else:
-                pickle.dump(value, f)
+        # Write to a temporary file first: a value that cannot be serialised must not
+        # leave a truncated file behind (or destroy the entry that was there before)
+        tmp_path = file_path.with_name(f"{file_path.name}.{os.getpid()}-{threading.get_ident()}.tmp")
+        try:
+            with tmp_path.open("wb") as f:
+                if self.use_cloudpickle:
+                    cloudpickle.dump(value, f)
+                else:
+                    pickle.dump(value, f)
+            tmp_path.replace(file_path)
+        except BaseException:
+            tmp_path.unlink(missing_ok=True)
+            raise
         if self.with_lru_cache:
             self.lru_cache.put(key, value)
         self._evict_if_needed()
